@@ -1,8 +1,164 @@
-(* C10 -- results depend only on arguments and seed.  Only statements, each closed by [exact]. *)
+(* C10 -- results depend only on arguments and seed.  Only statements, each closed by [exact] (Examples: by computation).
+
+   Vocabulary (Model/Effects.v).  A WORLD (state G V) holds: the global NumPy stream [gs], OS entropy [ent], the clock [ck],
+   the generator objects owned by the user [ext k], the contents of the default dictionaries [dd], the generators the call
+   has created itself [lg] and the HISTORY [hist] = everything the computation has observed so far: every value drawn,
+   every value read from a default dictionary, every branch / loop decision, every call of a user callback.  The numeric
+   result of a function is an (uninterpreted) function of its arguments and of that history; [draw decide wval wany
+   init ent_draw clock] are arbitrary, so the theorems hold for every generator algorithm and every numeric code.
+   [exec .. n body frame world] runs a skeleton (fuel n bounds call depth + loop iterations; None = out of fuel).
+   [check_all U api exempt fuel] is the boolean checker; [api] below is REGENERATED from the working tree on every run
+   (Gen/SkelC10.v) and [api_deterministic] is the closed computation [check_all universe api exemptions fuel_c10 = true]. *)
 From Coq Require Import String List Bool ZArith.
 From TV Require Import Model.Effects Proofs.EffectsP Gen.SkelC10 Gen.SkelC10Ok.
 Import ListNotations.
+Open Scope string_scope.
+
+Section AnyWorld.
+  (* generator states, values, and the uninterpreted parts of the semantics: everything below holds for all of them *)
+  Variables G V : Type.
+  Variable draw : nat -> list (obs V) -> G -> V * G.
+  Variable decide : nat -> list (obs V) -> bool.
+  Variable wval : nat -> string -> list (obs V) -> option V.
+  Variable wany : list (obs V) -> (string -> option V) -> string -> option V.
+  Variable init : Z -> G.
+  Variable ent_draw : G -> G * G.
+  Variable clock : G -> V * G.
+
+  Local Notation world := (state G V).
+  Local Notation hist := (hist G V).
+  Local Notation lg := (lg G V).
+  Local Notation gs := (gs G V).
+  Local Notation ent := (ent G V).
+  Local Notation ext := (ext G V).
+  Local Notation run U api := (exec G V draw decide wval wany init ent_draw clock U api).
+  Local Notation run_api := (exec G V draw decide wval wany init ent_draw clock universe api).
+
+  (* ---- the soundness theorem of the checker: every skeleton set [api0], every universe of dictionary keys --------- *)
+
+  (* Two worlds w1 w2 that agree ONLY on what is handed to the call (same_inputs: observation prefix, generators
+     already created by the call, state of the generator objects that occur in the frame) -- arbitrary and different
+     global streams, entropy, clocks, other generator objects and dictionary contents (confined = a default dictionary
+     holds only keys the library itself stores).  If the checker accepts, then for every entry context e of an exported
+     function (integer seeds / generator objects x user / default callbacks, dictionaries left at their defaults), every
+     frame fr instantiating it and every fuel: the run in w2 ends with the same flag and frame as the run in w1, with
+     the SAME HISTORY; neither run touches the global stream, OS entropy, or any generator object not handed over
+     (untouched_outside); the handed-over objects end in the same state; no dictionary entry on which the worlds agreed
+     diverges. *)
+  Theorem C10_noninterference :
+    forall U api0 exempt fuel, check_all U api0 exempt fuel = true ->
+    forall e g, In e (entries api0 exempt) -> find_fn api0 (cf e) = Some g ->
+    forall fr, frame_matches e fr ->
+    forall w1 w2 : world, same_inputs G V fr w1 w2 -> confined G V U w1 -> confined G V U w2 ->
+    forall n f fr' w1', run U api0 n (fbody g) fr w1 = Some (f, fr', w1') ->
+    exists w2', run U api0 n (fbody g) fr w2 = Some (f, fr', w2')
+      /\ hist w1' = hist w2' /\ lg w1' = lg w2'
+      /\ untouched_outside G V (passed fr) w1 w1' /\ untouched_outside G V (passed fr) w2 w2'
+      /\ (forall k, passed fr k -> ext w1' k = ext w2' k)
+      /\ no_new_difference G V w1 w2 w1' w2'.
+  Proof. exact (noninterference G V draw decide wval wany init ent_draw clock). Qed.
+
+  (* ---- the same for the functions of the working tree: premises discharged by the regenerated obligation ---------- *)
+
+  (* same integer seed(s) z and arguments => same history (hence result) in any two worlds; global stream, OS entropy and
+     EVERY generator object untouched; callbacks supplied by the user or left at their defaults (entry_cbs) *)
+  Theorem C10_api_integer_seed :
+    forall g, In g api -> fexported g = true -> fint_ok g = true ->
+    forall (z : string -> Z) cbs, entry_cbs exemptions g cbs ->
+    forall w1 w2 : world, hist w1 = hist w2 -> lg w1 = lg w2 -> confined G V universe w1 -> confined G V universe w2 ->
+    forall n f fr' w1', run_api n (fbody g) (int_frame g z cbs) w1 = Some (f, fr', w1') ->
+    exists w2', run_api n (fbody g) (int_frame g z cbs) w2 = Some (f, fr', w2')
+      /\ hist w1' = hist w2'
+      /\ (gs w1' = gs w1 /\ ent w1' = ent w1 /\ forall k, ext w1' k = ext w1 k)
+      /\ (gs w2' = gs w2 /\ ent w2' = ent w2 /\ forall k, ext w2' k = ext w2 k).
+  Proof.
+    exact (api_integer_seed G V draw decide wval wany init ent_draw clock universe api exemptions fuel_c10
+             api_deterministic api_names_unique).
+  Qed.
+
+  (* generator objects ks as seeds: only those objects advance; a second object in the same state reproduces the history
+     and ends in the same state; global stream, OS entropy, all other generator objects untouched *)
+  Theorem C10_api_generator_object :
+    forall g, In g api -> fexported g = true -> fseeds g <> [] ->
+    forall (ks : string -> nat) cbs, entry_cbs exemptions g cbs ->
+    forall w1 w2 : world, hist w1 = hist w2 -> lg w1 = lg w2 ->
+    (forall x, In x (fseeds g) -> ext w1 (ks x) = ext w2 (ks x)) ->
+    confined G V universe w1 -> confined G V universe w2 ->
+    forall n f fr' w1', run_api n (fbody g) (gen_frame g ks cbs) w1 = Some (f, fr', w1') ->
+    exists w2', run_api n (fbody g) (gen_frame g ks cbs) w2 = Some (f, fr', w2')
+      /\ hist w1' = hist w2'
+      /\ (forall x, In x (fseeds g) -> ext w1' (ks x) = ext w2' (ks x))
+      /\ (gs w1' = gs w1 /\ ent w1' = ent w1 /\ forall k, (forall x, In x (fseeds g) -> k <> ks x) -> ext w1' k = ext w1 k)
+      /\ (gs w2' = gs w2 /\ ent w2' = ent w2 /\ forall k, (forall x, In x (fseeds g) -> k <> ks x) -> ext w2' k = ext w2 k).
+  Proof.
+    exact (api_generator_object G V draw decide wval wany init ent_draw clock universe api exemptions fuel_c10
+             api_deterministic api_names_unique).
+  Qed.
+
+  (* functions without a seed parameter: no draw from any generator of the world (global stream, OS entropy, every
+     generator object untouched) and a history that does not depend on the world: repeated calls give identical results,
+     whatever the default dictionaries held before *)
+  Theorem C10_api_unseeded :
+    forall g, In g api -> fexported g = true -> fseeds g = [] ->
+    forall cbs, entry_cbs exemptions g cbs ->
+    forall w1 w2 : world, hist w1 = hist w2 -> lg w1 = lg w2 -> confined G V universe w1 -> confined G V universe w2 ->
+    forall n f fr' w1', run_api n (fbody g) (noseed_frame g cbs) w1 = Some (f, fr', w1') ->
+    exists w2', run_api n (fbody g) (noseed_frame g cbs) w2 = Some (f, fr', w2')
+      /\ hist w1' = hist w2'
+      /\ (gs w1' = gs w1 /\ ent w1' = ent w1 /\ forall k, ext w1' k = ext w1 k)
+      /\ (gs w2' = gs w2 /\ ent w2' = ent w2 /\ forall k, ext w2' k = ext w2 k).
+  Proof.
+    exact (api_unseeded G V draw decide wval wany init ent_draw clock universe api exemptions fuel_c10
+             api_deterministic api_names_unique).
+  Qed.
+End AnyWorld.
 
 (* regenerated on every run: the checker accepts every context reachable from every exported function of the working tree *)
 Theorem C10_api_deterministic : check_all universe api exemptions fuel_c10 = true.
 Proof. exact api_deterministic. Qed.
+
+Theorem C10_api_names_unique : names_unique api = true.
+Proof. exact api_names_unique. Qed.
+
+(* non-vacuity on the working tree itself: at least 5 exported seeded functions of the regenerated api have a model run
+   (seed 7, the concrete world of Model/Effects.v section 5) that returns and draws from the generator made from the seed *)
+Theorem C10_api_runs_and_draws : Nat.leb 5 (List.length (List.filter (runs_and_draws universe api) api)) = true.
+Proof. exact api_runs_and_draws. Qed.
+
+(* ---- non-vacuity ---------------------------------------------------------------------------------------------------- *)
+
+(* the checker accepts: seed -> generator, info reset before it is read, generator and info handed to a helper *)
+Example C10_ex_reset_then_read_accepted : check_all ex_U ex_api_ok [] 50 = true.
+Proof. vm_compute. reflexivity. Qed.
+
+(* ... and rejects: a global draw two levels down the call chain; a read of info before the reset; seed=None inside *)
+Example C10_ex_global_draw_rejected : check_all ex_U ex_api_global [] 50 = false.
+Proof. vm_compute. reflexivity. Qed.
+Example C10_ex_read_without_reset_rejected : check_all ex_U ex_api_readfirst [] 50 = false.
+Proof. vm_compute. reflexivity. Qed.
+Example C10_ex_entropy_rejected : check_all ex_U [ex_f_none] [] 50 = false.
+Proof. vm_compute. reflexivity. Qed.
+
+(* the hypotheses of the theorems are satisfiable and the conclusion is observable: the accepted skeleton, run with
+   seed 7 in two worlds that differ in the global stream (5 / 99) and in the stale contents of the default info
+   (None / Some 42), terminates with the same flag and the same non-trivial history, global streams untouched *)
+Example C10_ex_two_worlds_same_history :
+  ex_run ex_api_ok ex_f (int_frame ex_f (fun _ => 7%Z) (user_cbs ex_f)) (ex_world 5 None) =
+    Some (FRet, [ODraw 7; OCall 2; ODraw 8; ORead (Some 0); OCall 4; ORead (Some 0)], 5) /\
+  ex_run ex_api_ok ex_f (int_frame ex_f (fun _ => 7%Z) (user_cbs ex_f)) (ex_world 99 (Some 42)) =
+    Some (FRet, [ODraw 7; OCall 2; ODraw 8; ORead (Some 0); OCall 4; ORead (Some 0)], 99).
+Proof. vm_compute. split; reflexivity. Qed.
+
+(* the semantics is not blind: the rejected skeletons DO behave differently in those two worlds *)
+Example C10_ex_global_draw_observable :
+  ex_run ex_api_global ex_f (int_frame ex_f (fun _ => 7%Z) (user_cbs ex_f)) (ex_world 5 None) =
+    Some (FRet, [ODraw 7; OCall 2; ODraw 8; ORead (Some 0); OCall 4; ODraw 5; ORead (Some 0)], 6) /\
+  ex_run ex_api_global ex_f (int_frame ex_f (fun _ => 7%Z) (user_cbs ex_f)) (ex_world 99 None) =
+    Some (FRet, [ODraw 7; OCall 2; ODraw 8; ORead (Some 0); OCall 4; ODraw 99; ORead (Some 0)], 100).
+Proof. vm_compute. split; reflexivity. Qed.
+Example C10_ex_stale_info_observable :
+  ex_run ex_api_readfirst ex_f_readfirst (int_frame ex_f_readfirst (fun _ => 7%Z) []) (ex_world 5 None) =
+    Some (FRet, [ORead None], 5) /\
+  ex_run ex_api_readfirst ex_f_readfirst (int_frame ex_f_readfirst (fun _ => 7%Z) []) (ex_world 5 (Some 42)) =
+    Some (FRet, [ORead (Some 42)], 5).
+Proof. vm_compute. split; reflexivity. Qed.
